@@ -83,7 +83,7 @@ func TestVerifC13Handshake(t *testing.T) {
 	}
 	if l.Thorough() {
 		rng := l.Rand("c13k2")
-		for i := 0; i < 3000; i++ {
+		for i := 0; i < 40000; i++ {
 			sc := scen[rng.IntN(len(scen))]
 			var fs []simworld.Fault
 			for j := 0; j < 2; j++ {
